@@ -835,6 +835,24 @@ func c04UnusualDates(run *ev.Run) {
 			}
 		}
 	}
+	// descriptions whose inner lines are blank or hold only white space: the control
+	// paragraph may not contain a line a reader takes for the end of the paragraph
+	for di, desc := range []string{"first\n\nthird", "first\n \t \nthird", "first\n   \n\t\nfourth\n ", "first\r\n\r\nthird"} {
+		s := &gen.Spec{Name: "blanklines", Arch: "amd64", Version: "1.0.0", Maintainer: "S <s@example.com>", Description: desc, MTime: 1500000000}
+		s.RPM.BuildHost = "verif-host"
+		s.Contents = []*gen.Content{{Src: a, Dst: "/opt/dates/a.txt"}}
+		for _, f := range formats {
+			run.Case(fmt.Sprintf("description-with-blank-inner-lines|%d|%s", di, f), true)
+			res := buildYAML(s.YAML(), f)
+			if res.Err != nil || res.Panic != "" {
+				continue
+			}
+			p := dec.Decode(f, res.Bytes, false)
+			for _, x := range structural(f, res.Bytes, p, false, false) {
+				run.Violate("C04/"+f+"/"+x.kind, map[string]any{"description": desc, "detail": ev.Short(x.detail, 400)})
+			}
+		}
+	}
 	// a changelog file that exists but lists no entries yet
 	for ci, body := range []string{"", "[]\n", "# nothing released yet\n"} {
 		none := filepath.Join(dir, fmt.Sprintf("no-entries-%d.yaml", ci))
